@@ -6,12 +6,16 @@
    ski_of_key        SHA-1 of the subject public key      (oracle, any function)
    verifies s i      s's signature verifies under i's key (oracle, any relation)
 
-   The unrestricted equivalence is FALSE for the faithful model (C12_iff_refuted); the three
-   named restrictions below are each necessary (the three C12_iff_refuted_ theorems) and together sufficient
-   (C12_iff):
+   The equivalence C12_iff is stated on the following domain:
      inputs_wf           the leaf (and, for the issuer rule sets, the IACA anchors) repeat no
-                         extension and carry no issuer alternative name without names
-     unambiguous_anchor  issuer rule sets: at most one registry entry anchors the leaf
+                         extension (RFC 5280 4.2).  The property text neither requires nor
+                         forbids accepting a certificate that repeats an extension; the
+                         restriction is needed for the iff as stated
+                         (C12_iff_needs_unique_extensions) and is not a defect.
+     unambiguous_anchor  issuer rule sets: at most one registry entry anchors the leaf.
+                         Outside it the implementation DEVIATES from the property (finding,
+                         C12_iff_refuted / C12_iff_refuted_ambiguous_anchor): only the first
+                         candidate is examined.
      clock_ok            0 <= now < 2^63 *)
 From Isomdl Require Import Lib.Bytes Gen.X509Consts Model.X509 Spec.AnnexB Proofs.AnnexBProofs Proofs.X509Proofs.
 Open Scope N_scope.
@@ -99,29 +103,25 @@ Theorem C12_chain_tail_ignored :
     validate ski_of_key verifies rs now {| x_first := leaf; x_rest := rest' |} reg.
 Proof. exact chain_tail_ignored. Qed.
 
-(* ---------- findings: the unrestricted equivalence does not hold ---------- *)
+(* ---------- the domain restriction on repeated extensions is needed for the iff as stated ----------
+   [conformant] asks for exactly one instance of each required extension; the implementation
+   is content when every instance validates.  The property text neither requires nor forbids
+   accepting such a certificate, so this is a limit of the statement, not a defect. *)
+Theorem C12_iff_needs_unique_extensions :
+  exists ski_of_key verifies rs now x reg,
+    clock_ok now /\ unambiguous_anchor verifies rs now (x_first x) reg /\
+    validate ski_of_key verifies rs now x reg = [] /\
+    ~ conformant ski_of_key verifies rs now (x_first x) reg.
+Proof. exact needs_unique_extensions. Qed.
+
+(* ---------- finding: the unrestricted equivalence does not hold, even for certificates that
+   repeat no extension ---------- *)
 
 Theorem C12_iff_refuted :
   ~ (forall ski_of_key verifies rs now x reg,
        clock_ok now ->
        (validate ski_of_key verifies rs now x reg = [] <-> conformant ski_of_key verifies rs now (x_first x) reg)).
 Proof. exact iff_refuted. Qed.
-
-(* accepted although an extension is repeated (RFC 5280 4.2) *)
-Theorem C12_iff_refuted_duplicate_extension :
-  exists ski_of_key verifies rs now x reg,
-    clock_ok now /\ unambiguous_anchor verifies rs now (x_first x) reg /\
-    validate ski_of_key verifies rs now x reg = [] /\
-    ~ conformant ski_of_key verifies rs now (x_first x) reg.
-Proof. exact refuted_duplicate_extension. Qed.
-
-(* accepted although the issuer alternative name contains no name *)
-Theorem C12_iff_refuted_empty_issuer_alt_name :
-  exists ski_of_key verifies rs now x reg,
-    clock_ok now /\ unambiguous_anchor verifies rs now (x_first x) reg /\ NoDup (map e_oid (c_exts (x_first x))) /\
-    validate ski_of_key verifies rs now x reg = [] /\
-    ~ conformant ski_of_key verifies rs now (x_first x) reg.
-Proof. exact refuted_empty_issuer_alt_name. Qed.
 
 (* rejected although a conformant IACA in the registry anchors the leaf: only the first candidate
    is examined, so the verdict depends on the order of the registry *)
@@ -148,3 +148,11 @@ Proof. exact w_hypotheses_inhabited. Qed.
 Example C12_ex_noncritical_key_usage_accepted :
   validate w_ski w_verifies Mdl w_now (w_chain w_ds_noncritical_ku) [w_anchor w_iaca] = [].
 Proof. exact w_noncritical_key_usage_accepted. Qed.
+
+(* an issuer alternative name without any name is an error, on the leaf and on the IACA *)
+Example C12_ex_empty_issuer_alt_name_rejected :
+  validate w_ski w_verifies Mdl w_now (w_chain w_ds_empty_ian) [w_anchor w_iaca] = [(CtxDs, KExt XIan VIanEmpty)] /\
+  validate w_ski w_verifies MdlReaderOneStep w_now (w_chain w_ds_empty_ian) [] =
+    [(CtxReader, KExt XEku VValue); (CtxReader, KExt XIan VIanEmpty); (CtxReaderCa, KNoTrustAnchor)] /\
+  validate w_ski w_verifies Mdl w_now (w_chain w_ds) [w_anchor w_iaca_empty_ian] = [(CtxIaca, KExt XIan VIanEmpty)].
+Proof. exact w_empty_issuer_alt_name_rejected. Qed.
